@@ -242,7 +242,12 @@ class Machine:
         if c is None:
             self.probes['cache_not_introspectable'] += 1
             return
-        ci = c.cache_info()
+        try:
+            ci = c.cache_info()
+        except sched.SimDeadlock:
+            self.violate('2-bound', detail='cache_info() would block forever: a lock taken by an earlier call was never '
+                                           'released', at=where)
+            return
         if not isinstance(ci.maxsize, int) or isinstance(ci.maxsize, bool):
             self.violate('2-bound', detail=f'maxsize={ci.maxsize!r} is not a number', at=where)
             return
